@@ -7,18 +7,18 @@ use std::cell::RefCell;
 use std::collections::VecDeque;
 use std::ptr::NonNull;
 
-pub(crate) struct FuncPtrInternal(NonNull<()>);
+pub struct FuncPtrInternal(NonNull<()>);
 
 impl FuncPtrInternal {
-    pub(crate) unsafe fn new(non_null_ptr: NonNull<()>) -> Self {
+    pub unsafe fn new(non_null_ptr: NonNull<()>) -> Self {
         FuncPtrInternal(non_null_ptr)
     }
-    pub(crate) fn as_ptr(&self) -> *const () {
+    pub fn as_ptr(&self) -> *const () {
         self.0.as_ptr()
     }
 }
 
-pub(crate) struct PatchGuard {
+pub struct PatchGuard {
     pub func_ptr: *mut u8,
     pub original_bytes: Vec<u8>,
     pub patch_size: usize,
@@ -27,7 +27,7 @@ pub(crate) struct PatchGuard {
 }
 
 impl PatchGuard {
-    pub(crate) fn new(
+    pub fn new(
         func_ptr: *mut u8,
         original_bytes: Vec<u8>,
         patch_size: usize,
@@ -105,7 +105,7 @@ pub fn read_mem(addr: u64, len: usize) -> Vec<u8> {
     })
 }
 
-pub(crate) fn allocate_jit_memory(src: &FuncPtrInternal, code_size: usize) -> *mut u8 {
+pub fn allocate_jit_memory(src: &FuncPtrInternal, code_size: usize) -> *mut u8 {
     SIM.with(|s| {
         let mut s = s.borrow_mut();
         let ret = s.jit_plan.pop_front().expect("vsim: jit plan exhausted");
@@ -114,7 +114,7 @@ pub(crate) fn allocate_jit_memory(src: &FuncPtrInternal, code_size: usize) -> *m
     })
 }
 
-pub(crate) unsafe fn read_bytes(ptr: *const u8, len: usize) -> Vec<u8> {
+pub unsafe fn read_bytes(ptr: *const u8, len: usize) -> Vec<u8> {
     SIM.with(|s| {
         let mut s = s.borrow_mut();
         s.events.push(Event::Read { addr: ptr as u64, len });
@@ -122,7 +122,7 @@ pub(crate) unsafe fn read_bytes(ptr: *const u8, len: usize) -> Vec<u8> {
     })
 }
 
-pub(crate) unsafe fn patch_function(func: *mut u8, patch: &[u8]) {
+pub unsafe fn patch_function(func: *mut u8, patch: &[u8]) {
     SIM.with(|s| {
         let mut s = s.borrow_mut();
         s.events.push(Event::Patch { addr: func as u64, bytes: patch.to_vec() });
@@ -130,7 +130,7 @@ pub(crate) unsafe fn patch_function(func: *mut u8, patch: &[u8]) {
     })
 }
 
-pub(crate) unsafe fn inject_asm_code(asm_code: &[u8], dest: *mut u8) {
+pub unsafe fn inject_asm_code(asm_code: &[u8], dest: *mut u8) {
     SIM.with(|s| {
         let mut s = s.borrow_mut();
         s.events.push(Event::Inject { addr: dest as u64, bytes: asm_code.to_vec() });
